@@ -742,4 +742,80 @@ theorem startW_inv (r : Nat) (hw : wok r) (g lg : Nat) (i : ListInW) (hwr : i.wi
   · rename_i hge
     exact ⟨⟨Or.inl ⟨rfl, rfl, by simpa using hge⟩, hadm⟩, rfl, rfl, Or.inl rfl⟩
 
+/-! ## `WriteBytes` leaves the line buffer as it found it and stores the file-order bytes -/
+
+theorem swap2_swap2 : ∀ d : List UInt8, swap2 (swap2 d) = d
+  | [] => rfl
+  | [_] => rfl
+  | a :: b :: t => by simp [swap2, swap2_swap2 t]
+
+theorem swap4_swap4 : ∀ d : List UInt8, swap4 (swap4 d) = d
+  | [] => rfl
+  | [_] => rfl
+  | [_, _] => rfl
+  | [_, _, _] => rfl
+  | a :: b :: c :: e :: t => by simp [swap4, swap4_swap4 t]
+
+theorem swap2_length : ∀ d : List UInt8, (swap2 d).length = d.length
+  | [] => rfl
+  | [_] => rfl
+  | a :: b :: t => by simp [swap2, swap2_length t]
+
+theorem swap4_length : ∀ d : List UInt8, (swap4 d).length = d.length
+  | [] => rfl
+  | [_] => rfl
+  | [_, _] => rfl
+  | [_, _, _] => rfl
+  | a :: b :: c :: e :: t => by simp [swap4, swap4_length t]
+
+/-- `DreheCodes` twice is the identity (any `ActListGran`) -/
+theorem turnU_turnU (lg : Nat) (d : List UInt8) : turnU lg (turnU lg d) = d := by
+  unfold turnU
+  split
+  · exact swap2_swap2 d
+  · split
+    · exact swap4_swap4 d
+    · rfl
+
+theorem turnU_length (lg : Nat) (d : List UInt8) : (turnU lg d).length = d.length := by
+  unfold turnU
+  split
+  · exact swap2_length d
+  · split
+    · exact swap4_length d
+    · rfl
+
+theorem fileB_length (tw : Bool) (lg : Nat) (d : List UInt8) : (fileB tw lg d).length = d.length := by
+  unfold fileB
+  cases tw <;> simp [turnU_length]
+
+/-- the buffer after the first `DreheCodes` of `WriteBytes` -/
+theorem writeBytes_c1 (tw : Bool) (lg : Nat) (code : List UInt8) :
+    (if tw then Drehe.dreheCodes lg code.length code else code) = fileB tw lg code := by
+  unfold fileB
+  rw [dreheCodes_eq]
+
+/-- … and after the second one -/
+theorem writeBytes_c2 (tw : Bool) (lg : Nat) (code : List UInt8) :
+    (if tw then Drehe.dreheCodes lg (fileB tw lg code).length (fileB tw lg code) else fileB tw lg code) = code := by
+  cases tw
+  · simp [fileB]
+  · simp only [if_true]
+    rw [dreheCodes_eq]
+    simp [fileB, turnU_turnU]
+
+/-- `WriteBytes` in closed form: the three ways of the bytes `fileB tw lg code` into buffer / file, line buffer unchanged -/
+theorem writeBytesLine_eq (tw : Bool) (lg : Nat) (s : Store) (code : List UInt8) :
+    writeBytesLine tw lg s code =
+      (if code.length = 0 then s
+       else if s.buf.length + code.length < codeBufferSize then { s with buf := s.buf ++ fileB tw lg code }
+       else if code.length < codeBufferSize then ⟨s.disk ++ s.buf, fileB tw lg code⟩
+       else ⟨s.disk ++ s.buf ++ fileB tw lg code, []⟩, code) := by
+  unfold writeBytesLine
+  by_cases h0 : code.length = 0
+  · simp [h0]
+  · simp only [h0, if_false]
+    rw [writeBytes_c1, writeBytes_c2, fileB_length]
+    simp only [flushStore]
+
 end AslModel.Listing
